@@ -184,8 +184,8 @@ func suiteC03tr(c *ctx) {
 			if !c.mine(idx) {
 				continue
 			}
-			if !c.thorough() && idx%3 != int(c.seed%3) && !store_validName(name) {
-				continue
+			if !c.thorough() && idx%3 != int(c.seed%3) && !store_validName(name) && !strings.Contains(name, "/") {
+				continue // (sampled in quick; names that could leave the base directory are always run)
 			}
 			cfg := genCfg(r)
 			sandbox := filepath.Join(c.work, fmt.Sprintf("sbt%d", idx))
